@@ -474,6 +474,9 @@ func engineOracles(c *Ctx, ec *eCase, recs []reqRec) {
 			if len(r.path) != 0 {
 				c.Fail("C20", "end-not-unwound", fmt.Sprintf("%s: session ended gracefully but stored path is %v", where, r.path))
 			}
+			if r.state != "nostate" && r.caSnap.use != 0 {
+				c.Fail("C20", "end-use-not-zero", fmt.Sprintf("%s: session ended gracefully but the stored cache accounts for %d bytes in use", where, r.caSnap.use))
+			}
 			if r.state != "nostate" && r.caSnap.last != "" {
 				c.Fail("C20", "end-last-value-kept", fmt.Sprintf("%s: session ended gracefully but the stored cache keeps the last loaded value %q, which a later end would deliver again", where, trunc(r.caSnap.last, 30)))
 			}
@@ -665,6 +668,18 @@ func engineOracles(c *Ctx, ec *eCase, recs []reqRec) {
 				}
 			}
 		}
+		// ---- C09: the configured capacity bounds what is stored, also when it was set on the cache object handed to the engine
+		if r.state != "nostate" && r.x != "panic" && ec.cache > 0 {
+			total := 0
+			for _, fr := range r.caSnap.frames {
+				for _, v := range fr {
+					total += len(v)
+				}
+			}
+			if total > ec.cache {
+				c.Fail("C09", "capacity-not-enforced", fmt.Sprintf("%s: the cache holds %d bytes, its capacity is %d", where, total, ec.cache))
+			}
+		}
 		// ---- C05: scope lifetime and size limits, from the stored cache
 		if r.state != "nostate" && r.x != "panic" && ec.wf && !hasCroak && r.cont {
 			if len(r.caSnap.frames) > len(r.path)+1 {
@@ -737,6 +752,39 @@ func engineOracles(c *Ctx, ec *eCase, recs []reqRec) {
 						c.Fail("C18", "symbol-language", fmt.Sprintf("%s: %q was loaded at level %d while the session language is %s, but holds the default entry %q instead of %q", where, k, li, *r.lang, trunc(v, 30), trunc(*tr, 30)))
 					}
 				}
+			}
+		}
+		// ---- C18: a LANG handler's valid code is the session language afterwards; nothing else changes the language
+		if r.x == "ok" && r.state != "nostate" && !hasFirst && prev != nil && prev.state != "nostate" {
+			var selected *string // the ISO form of the last valid code a LANG handler returned in this request
+			langCall := false
+			for _, cl := range r.calls {
+				for ri := range ec.exts {
+					ru := &ec.exts[ri]
+					if ru.sym != cl.sym || ru.callIdx >= 0 || ru.lang != nil {
+						continue
+					}
+					has7 := false
+					for _, f := range ru.set {
+						if f == 7 {
+							has7 = true
+						}
+					}
+					if has7 {
+						langCall = true
+						if iso, ok := ec.langof[ru.content]; ok && !ru.fail && ru.status == 0 {
+							iso := iso
+							selected = &iso
+						}
+					}
+				}
+			}
+			same := (prev.lang == nil && r.lang == nil) || (prev.lang != nil && r.lang != nil && *prev.lang == *r.lang)
+			if selected != nil && (r.lang == nil || *r.lang != *selected) && !flagBit(prev.flags, 6) {
+				c.Fail("C18", "selection-ignored", fmt.Sprintf("%s: a handler selected the valid code for %s, the session language afterwards is %s", where, *selected, optS(r.lang)))
+			}
+			if !langCall && !same && !(ec.lang != "" && prev.lang == nil) { // (the configured language is applied when the engine is first prepared)
+				c.Fail("C18", "language-changed-without-selection", fmt.Sprintf("%s: no handler asked for a language in this request but it changed from %s to %s", where, optS(prev.lang), optS(r.lang)))
 			}
 		}
 		// ---- C18: once a handler has selected a language, the rest of the same run uses it
